@@ -5,6 +5,8 @@ import (
 	"errors"
 	"fmt"
 	"io"
+	"math"
+	"math/big"
 	"sort"
 	"strings"
 	"time"
@@ -108,7 +110,9 @@ type lockExec struct {
 	ccp      *cloudprovider.CachedCloudProvider
 	prov     *scriptedProvider
 	logger   logrus.FieldLogger
-	vnow     int64 // simulated time, ns
+	vnow     int64 // virtual time, ns
+	off      int64 // stamps in the cache = virtual stamp + off (wall-clock domain)
+	offSet   bool
 	pending  []gostatsd.Source
 	inflight []gostatsd.InstanceInfo
 	lookReg  *gostatsd.Source
@@ -121,20 +125,96 @@ type lockExec struct {
 	// statistics for the non-triviality rule / class
 	nBatch, nMulti, nFailedKnown, nEvicted, nRequeued, nReplaced, nPeekHit, skipped int
 	nIdleEq, nExpEq                                                                 int  // refresh ticks with an entry exactly on the idle / expiry boundary
-	jitter                                                                          bool // a step took longer in real time than the rebase unit: the case must be re-run
+	jitter                                                                          bool // a step took so long in real time that its stamps cannot be made exact: the case must be re-run
 }
 
-// rebaseUnit: every period is a multiple of it, and a step must take less real time than it
-const rebaseUnit = 100 * time.Millisecond
+// Time.  handleInstanceInfo and Peek read time.Now(); doRefresh gets its time as an argument.  The harness
+// keeps every stamp in the wall-clock domain -- so that anything the code compares with time.Now() stays
+// meaningful -- at a known offset from its virtual clock: stamp = virtual stamp + off.  Before every step
+// that reads the clock, off is set to (wall clock - virtual now) and all stamps are shifted by the change
+// (real time that has passed, minus virtual time that was advanced).  After the step, every stamp it wrote is
+// a reading t0+e (0 <= e <= real duration of the step), possibly plus one of the configured TTLs; it is
+// replaced by exactly t0 (+ that TTL).  So all stamps are exact in virtual time, at nanosecond granularity,
+// and a refresh tick at virtual time v (wall v+off) meets idle / expiry boundaries exactly.
 
-// stamped runs a step that reads time.Now() and moves the stamps it wrote onto the virtual time axis
+// virt returns the stamps in virtual time
+type virtStamp struct {
+	ip      gostatsd.Source
+	expires *big.Int
+	access  int64
+}
+
+func (x *lockExec) virtStamps() []virtStamp {
+	var out []virtStamp
+	for _, st := range x.ccp.VerifExactStamps() {
+		e := new(big.Int).Mul(big.NewInt(st.Expires.Unix()), big.NewInt(1e9))
+		e.Add(e, big.NewInt(int64(st.Expires.Nanosecond())))
+		e.Sub(e, big.NewInt(x.off))
+		out = append(out, virtStamp{ip: st.IP, expires: e, access: st.Access - x.off})
+	}
+	return out
+}
+
+func coqBig(b *big.Int) string {
+	if b.IsInt64() {
+		return hlib.Z(b.Int64())
+	}
+	if b.IsUint64() {
+		return hlib.ZU(b.Uint64())
+	}
+	return "(" + b.String() + ")%Z"
+}
+
+// stamped runs a step that reads time.Now()
 func (x *lockExec) stamped(f func()) {
-	t0 := time.Now()
+	t0 := time.Unix(0, time.Now().UnixNano())
+	off := t0.UnixNano() - x.vnow
+	if x.offSet && off != x.off {
+		x.ccp.VerifShiftStamps(time.Duration(x.off - off)) // moves every stamp by off - x.off
+	}
+	x.off, x.offSet = off, true
+	before := map[gostatsd.Source]cloudprovider.VerifExactStamp{}
+	for _, st := range x.ccp.VerifExactStamps() {
+		before[st.IP] = st
+	}
 	f()
-	_, ok := x.ccp.VerifRebaseStamps(t0, x.vnow, rebaseUnit)
-	if !ok || time.Since(t0) >= rebaseUnit {
+	elapsed := time.Duration(time.Now().UnixNano() - t0.UnixNano()) // wall clock, as the stamps are
+	if elapsed < 0 || elapsed > 200*time.Millisecond {
 		x.jitter = true
 	}
+	for _, st := range x.ccp.VerifExactStamps() {
+		b, existed := before[st.IP]
+		if !existed || st.Access != b.Access { // written by this step: a clock reading
+			if d := st.Access - t0.UnixNano(); d >= 0 && time.Duration(d) <= elapsed {
+				a := t0.UnixNano()
+				x.ccp.VerifSetStamps(st.IP, nil, &a)
+			} // else: left as it is; Coq will report the stamp
+		}
+		if !existed || !st.Expires.Equal(b.Expires) { // written by this step: a clock reading + a TTL
+			d := st.Expires.Sub(t0) // saturates at MaxInt64, which then is the TTL itself
+			var match []time.Duration
+			for _, p := range []time.Duration{time.Duration(x.cfg.TTL), time.Duration(x.cfg.NegTTL)} {
+				if d-p >= 0 && d-p <= elapsed && (len(match) == 0 || match[0] != p) {
+					match = append(match, p)
+				}
+			}
+			switch len(match) {
+			case 1:
+				e := t0.Add(match[0])
+				x.ccp.VerifSetStamps(st.IP, &e, nil)
+			case 2: // the step took longer than the two TTLs differ: re-run the case
+				x.jitter = true
+			}
+		}
+	}
+}
+
+// wallNow is the wall-clock time that stands for the virtual now (for doRefresh)
+func (x *lockExec) wallNow() time.Time {
+	if !x.offSet {
+		x.off, x.offSet = time.Now().UnixNano()-x.vnow, true
+	}
+	return time.Unix(0, x.vnow+x.off)
 }
 
 func newLockExec(cfg cfgIn) *lockExec {
@@ -188,10 +268,13 @@ func (x *lockExec) loopTail() {
 	}
 }
 
-// advance moves the virtual clock; adv is in half seconds
-func (x *lockExec) advance(adv int64) {
-	if adv > 0 {
-		x.vnow += adv * (second / 2)
+// advance moves the virtual clock by adv half seconds + ms milliseconds
+func (x *lockExec) advance(op opIn) {
+	if op.Adv > 0 {
+		x.vnow += op.Adv * (second / 2)
+	}
+	if op.AdvMs > 0 {
+		x.vnow += op.AdvMs * int64(time.Millisecond)
 	}
 }
 
@@ -261,7 +344,7 @@ func (x *lockExec) exec(op opIn) bool {
 		label = hlib.App("Batch", hlib.List(res), hlib.Bool(op.Err))
 		out = hlib.App("OInfos", coqInfos(infos))
 	case "handle":
-		x.advance(op.Adv)
+		x.advance(op)
 		info := x.inflight[0]
 		old, was := x.cachedInstance(info.IP)
 		if was && old != nil {
@@ -284,12 +367,12 @@ func (x *lockExec) exec(op opIn) bool {
 		out = hlib.App("ORet", coqInfo(info))
 		tr["ip"], tr["inst"] = string(info.IP), obsInst(info.Instance)
 	case "refresh":
-		x.advance(op.Adv)
+		x.advance(op)
 		before := x.ccp.VerifSnapshot()
 		idleEq, expEq := false, false
-		for _, st := range x.ccp.VerifStamps() {
-			idleEq = idleEq || x.vnow-st.Access == x.cfg.Idle
-			expEq = expEq || (x.vnow-st.Access <= x.cfg.Idle && st.Expires == x.vnow)
+		for _, st := range x.virtStamps() {
+			idleEq = idleEq || x.vnow-st.access == x.cfg.Idle
+			expEq = expEq || (x.vnow-st.access <= x.cfg.Idle && st.expires.IsInt64() && st.expires.Int64() == x.vnow)
 		}
 		if idleEq {
 			x.nIdleEq++
@@ -297,7 +380,7 @@ func (x *lockExec) exec(op opIn) bool {
 		if expEq {
 			x.nExpEq++
 		}
-		x.ccp.VerifDoRefresh(time.Unix(0, x.vnow))
+		x.ccp.VerifDoRefresh(x.wallNow())
 		after := x.ccp.VerifSnapshot()
 		nb := len(before.ToLookupIPs)
 		if len(after.ToLookupIPs) < nb || fmt.Sprint(after.ToLookupIPs[:nb]) != fmt.Sprint(before.ToLookupIPs) {
@@ -311,7 +394,7 @@ func (x *lockExec) exec(op opIn) bool {
 		label = hlib.App("Refresh", hlib.Z(x.vnow), coqSources(order))
 		tr["requeued"], tr["evicted"] = order, len(before.Cache)-len(after.Cache)
 	case "peek":
-		x.advance(op.Adv)
+		x.advance(op)
 		var inst *gostatsd.Instance
 		var hit bool
 		x.stamped(func() { inst, hit = x.ccp.Peek(gostatsd.Source(op.S)) })
@@ -337,10 +420,10 @@ func (x *lockExec) exec(op opIn) bool {
 	for i, e := range snap.Cache {
 		ce[i] = hlib.Pair(hlib.Bytes(string(e.IP)), coqInst(e.Instance))
 	}
-	stamps := x.ccp.VerifStamps()
+	stamps := x.virtStamps()
 	se := make([]string, len(stamps))
 	for i, st := range stamps {
-		se[i] = hlib.Pair(hlib.Bytes(string(st.IP)), hlib.Pair(hlib.Z(st.Expires), hlib.Z(st.Access)))
+		se[i] = hlib.Pair(hlib.Bytes(string(st.ip)), hlib.Pair(coqBig(st.expires), hlib.Z(st.access)))
 	}
 	obs := hlib.App("Obs", out, hlib.List(ce), hlib.List(se), hlib.ZU(snap.Positive), hlib.ZU(snap.Negative), hlib.ZU(snap.RefreshPositive),
 		hlib.ZU(snap.RefreshNegative), coqSources(snap.ToLookupIPs), coqInfos(snap.ToReturnInfo))
@@ -375,6 +458,9 @@ func (x *lockExec) result(in input) hlib.Case {
 	add(x.nReplaced > 0, "replaced")
 	add(x.nEvicted > 0, "evict")
 	add(x.nRequeued > 0, "requery")
+	add(x.cfg.Idle < second || x.cfg.TTL < second, "ms")
+	add(x.cfg.Idle >= hour || x.cfg.TTL >= hour || x.cfg.NegTTL >= hour, "long")
+	add(x.cfg.Idle == maxDur, "idle=max")
 	add(x.nIdleEq > 0, "idle-boundary")
 	add(x.nExpEq > 0, "expiry-boundary")
 	c.Class = fmt.Sprintf("lock/limit=%d/%s", x.cfg.Limit, strings.Join(flags, "+"))
@@ -417,19 +503,63 @@ var halfSeconds = func(ks ...int64) []int64 {
 	return out
 }
 
-func genCfg(r *hlib.Rand) cfgIn {
-	return cfgIn{
+const (
+	ms      = int64(time.Millisecond)
+	hour    = int64(time.Hour)
+	maxDur  = int64(math.MaxInt64) // the "never" value of a period
+	halfMax = maxDur / 2
+)
+
+// genCfg draws the cache options.  Two regimes: periods on the half-second grid (any of them possibly replaced
+// by hours or by the largest durations), or millisecond periods (1 ms ... 1.5 s).  The virtual clock starts at
+// 1000 s and a case advances it by less than 2^51 ns in total, so every quantity the code computes with the
+// subtraction forms (now - lastAccess, now.Add(ttl) as time.Time) stays far inside int64 / time.Time's range.
+func genCfg(r *hlib.Rand) (cfgIn, bool) {
+	if r.Chance(2, 5) {
+		return cfgIn{
+			TTL:    hlib.Pick(r, []int64{1 * ms, 50 * ms, 400 * ms, 700 * ms, 1500 * ms}),
+			NegTTL: hlib.Pick(r, []int64{0, 1 * ms, 50 * ms, 400 * ms}),
+			Idle:   hlib.Pick(r, []int64{50 * ms, 400 * ms, 400 * ms, 700 * ms, 700 * ms, 1 * ms}),
+			Limit:  r.Range(1, 5),
+		}, true
+	}
+	c := cfgIn{
 		TTL:    hlib.Pick(r, halfSeconds(2, 3, 4, 6, 7)),
 		NegTTL: hlib.Pick(r, halfSeconds(0, 1, 2, 2, 8)),
 		Idle:   hlib.Pick(r, halfSeconds(4, 5, 8, 14)),
 		Limit:  r.Range(1, 5),
 	}
+	if r.Chance(1, 3) {
+		c.Idle = hlib.Pick(r, []int64{3 * hour, maxDur, maxDur, halfMax})
+	}
+	if r.Chance(1, 6) {
+		c.TTL = hlib.Pick(r, []int64{hour, halfMax, maxDur})
+	}
+	if r.Chance(1, 10) {
+		c.NegTTL = hlib.Pick(r, []int64{hour, maxDur})
+	}
+	return c, false
 }
 
 type lockGen struct {
 	r       *hlib.Rand
 	sources []string
 	version int
+	msGrid  bool // millisecond regime
+	long    bool // some period is hours or more
+}
+
+// timed sets the advance of the virtual clock before an op
+func (g *lockGen) timed(op opIn) opIn {
+	if g.msGrid {
+		op.AdvMs = hlib.Pick(g.r, []int64{0, 0, 1, 2, 3, 5, 5, 7, 10, 13, 20, 50, 100, 300, 350, 400, 700})
+		return op
+	}
+	op.Adv = g.adv()
+	if g.long && g.r.Chance(1, 12) {
+		op.Adv = hlib.Pick(g.r, []int64{7200, 21600, 21601}) // 1 h, 3 h, 3 h + 0.5 s
+	}
+	return op
 }
 
 func (g *lockGen) freshInstance(s string) *instIn {
@@ -494,8 +624,8 @@ func (g *lockGen) batchOp(pending []gostatsd.Source) opIn {
 }
 
 func genLock(r *hlib.Rand, tier string) hlib.Case {
-	cfg := genCfg(r)
-	g := &lockGen{r: r}
+	cfg, msGrid := genCfg(r)
+	g := &lockGen{r: r, msGrid: msGrid, long: cfg.Idle >= hour || cfg.TTL >= hour || cfg.NegTTL >= hour}
 	n := r.Range(1, 5)
 	perm := append([]string(nil), sourcePool...)
 	for i := range perm {
@@ -504,14 +634,36 @@ func genLock(r *hlib.Rand, tier string) hlib.Case {
 	}
 	g.sources = perm[:n]
 	nops := r.Range(15, 70)
+	if msGrid {
+		nops = r.Range(25, 90)
+	}
 	if tier == "thorough" {
 		nops = r.Range(15, 160)
 	}
+	train := 0 // millisecond regime: a constantly used source is read every 1-20 ms across refresh ticks
 	// phases make the interesting situations frequent: fill, then let time pass around refreshes
 	var ops []opIn
 	x := newLockExec(cfg)
 	for len(ops) < nops {
+		if msGrid && train == 0 && r.Chance(1, 12) {
+			if _, hit := x.cachedInstance(gostatsd.Source(g.sources[0])); hit {
+				train = r.Range(5, 30)
+			}
+		}
+		if train > 0 {
+			train--
+			op := opIn{Op: "peek", S: g.sources[0], AdvMs: int64(r.Range(1, 20))}
+			if r.Chance(1, 6) {
+				op = opIn{Op: "refresh", AdvMs: int64(r.Range(1, 20))}
+			}
+			x.exec(op)
+			ops = append(ops, op)
+			continue
+		}
 		weights := map[string]int{"submit": 5, "send": 6, "batch": 3, "handle": 7, "return": 4, "refresh": 3, "peek": 3}
+		if msGrid {
+			weights["refresh"], weights["peek"] = 5, 6
+		}
 		if len(x.pending) >= cfg.Limit {
 			weights["batch"] = 12
 		}
@@ -539,13 +691,13 @@ func genLock(r *hlib.Rand, tier string) hlib.Case {
 		case "batch":
 			op = g.batchOp(x.pending)
 		case "handle", "refresh":
-			op = opIn{Op: kind, Adv: g.adv()}
+			op = g.timed(opIn{Op: kind})
 		case "peek":
 			s := hlib.Pick(r, g.sources)
 			if r.Chance(1, 10) {
 				s = hlib.Pick(r, sourcePool)
 			}
-			op = opIn{Op: kind, S: s, Adv: g.adv()}
+			op = g.timed(opIn{Op: kind, S: s})
 		default:
 			op = opIn{Op: kind}
 		}
